@@ -37,7 +37,9 @@ Vals(o, prop) ==
   ELSE IF prop = "relationship_type" THEN (IF o.rtype = 0 THEN {} ELSE {o.rtype})
   ELSE IF prop = "created_by_ref" THEN (IF o.creator = 0 THEN {} ELSE {o.creator})
   ELSE {}          \* a property no object has
-Cmp(op, x, v) == IF op = "=" THEN x = v ELSE IF op = "!=" THEN x # v ELSE IF op = "in" THEN x \in v
+\* ("=seq" / "!=seq": the operators = and != given a whole list as value, on a scalar property: a scalar is never equal to a list -- only "in" looks inside the list)
+Cmp(op, x, v) == IF op = "=seq" THEN FALSE ELSE IF op = "!=seq" THEN TRUE
+                 ELSE IF op = "=" THEN x = v ELSE IF op = "!=" THEN x # v ELSE IF op = "in" THEN x \in v
                  ELSE IF op = "<" THEN x < v ELSE IF op = "<=" THEN x <= v ELSE IF op = ">" THEN x > v
                  ELSE IF op = ">=" THEN x >= v ELSE x = v      \* "contains" on the model's values: element / whole-string equality
 Holds(f, o) == \E x \in Vals(o, f.prop) : Cmp(f.op, x, f.val)
